@@ -10,7 +10,7 @@ Encodings
             `r` paren, `f:<name>` field access, `a:<attr>`, `c:<type>` cast, `d` `&`, `q` `?`, `n` `-`, `k` call
   base      `l:<text>` literal | `m:<name>` macro call | `p:<global>:<seg>;<seg>…` path, seg = `<ident>/<args or ~>`
   fpat      `b:<byRef><refMut><mut>:<name>:<sub or ~>` | `o:<text>`
-  args      top-level pieces of a macro's tokens joined by `,` (`_` = none): `e:<text>:<lowPrec><hasAttrs><blockLike>:<toks>`
+  args      top-level pieces of a macro's tokens joined by `,` (`_` = none): `e:<text>:<lowPrec><hasAttrs>:<toks>`
             (toks: strings joined by `+`, `_` = none), `c` comma, `j:<text>` a stray token
   items     `<text>:<hasComment>` joined by `,` (`_` = none);   strs: strings joined by `+` (`_` = none)
   levels    `<attrs>:<pre>:<post>` joined by `,` (outermost first)
@@ -23,7 +23,7 @@ Operations (model of the function named)
   opt.field <opt> <exprOk> <name> <short> <wrappers> <base> <attrs> <sep> -> <fires> <text>      `rewrite_field`
   opt.field.ast <opt> <name> <short> <wrappers> <base>                    -> <fires>             the seeded variant
   opt.patfield <name> <short> <fpat>                    -> <text>                                 `PatField::rewrite`
-  opt.try <opt> <path> <stmt> <args>                    -> none | <parens> <text>                 `convert_try_mac`
+  opt.try <opt> <path> <args>                           -> none | <parens> <text>                 `convert_try_mac`
   opt.tuple <opt> <items>                               -> <suffix> <fires> <strs>   `count_wildcard_suffix_len`, `rewrite_tuple_pat`
   opt.paren <opt> <levels> <atom>                       -> <text>                                 `rewrite_paren`
   opt.vis <vis>                                         -> <text>                                 `format_visibility`
@@ -44,7 +44,7 @@ Operations (model of the function named)
   lit.lexrest <text>                                    -> <text>                  rustc_lexer `number` + suffix: the rest
 ORACLES (judge what the real formatter printed)
   opt.field.den <name> <short> <wrappers> <base> <outname> <outvalue: strs or ~ for a shorthand>  -> ok | diff
-  opt.try.judge <opt> <path> <stmt> <args> <in toks: strs> <out toks: strs>   -> ok | diff:<expected>
+  opt.try.judge <opt> <path> <args> <in toks: strs> <out toks: strs>   -> ok | diff:<expected>
         the printed tokens are the model's `TryOut.toks`, or the input's when the model declines
   opt.tuple.same <n> <in: strs> <out: strs>             -> ok | diff      where `tupleDen n in` is defined, `tupleDen n out` is the same
   opt.paren.hard <levels> <atom> <out levels> <out atom> -> ok | diff     `hard` of both, and the outer pair is kept
@@ -120,11 +120,10 @@ def decArg (s : String) : Option ArgTok :=
   | ["j", t] => (decChars t).map .junk
   | ["e", t, flags, toks] =>
     match flags.toList with
-    | [a, b, c] => do
+    | [a, b] => do
       let a ← decBool (String.singleton a)
       let b ← decBool (String.singleton b)
-      let c ← decBool (String.singleton c)
-      pure (.expr ⟨← decChars t, ← decStrs toks, a, b, c⟩)
+      pure (.expr ⟨← decChars t, ← decStrs toks, a, b⟩)
     | _ => none
   | _ => none
 
@@ -243,16 +242,16 @@ def handle (op : String) (args : List String) : Option String :=
       pure (ok (f.den == (⟨on, ov⟩ : FieldDen)))).getD "err"
   | "opt.patfield", [name, short, pat] => some <| (do
       pure (encChars (rewritePatField ⟨← decChars name, ← decBool short, ← decFPat pat⟩))).getD "err"
-  | "opt.try", [opt, path, stmt, as] => some <| (do
-      match convertTry (← decBool opt) (← decChars path) (← decArgs as) (← decBool stmt) with
+  | "opt.try", [opt, path, as] => some <| (do
+      match convertTry (← decBool opt) (← decChars path) (← decArgs as) with
       | none => pure "none"
       | some o => pure (encBool o.parens ++ " " ++ encChars o.render)).getD "err"
-  | "opt.try.judge", [opt, path, stmt, as, inp, out] => some <| (do
+  | "opt.try.judge", [opt, path, as, inp, out] => some <| (do
       let path ← decChars path
       let as ← decArgs as
       let inp ← decStrs inp
       let out ← decStrs out
-      let want := match convertTry (← decBool opt) path as (← decBool stmt) with
+      let want := match convertTry (← decBool opt) path as with
         | none => inp
         | some o => o.toks
       pure (if out == want then "ok" else "diff:" ++ encStrs want)).getD "err"
